@@ -27,6 +27,9 @@ func TestC12(t *testing.T) {
 			c.Block = 1
 		}
 		c.Ints = rapid.SliceOfN(rapid.Int64Range(0, 1<<40), 2, 8).Draw(t, "offsets")
+		if pickU(t, "farbase", 4) == 0 {
+			c.Ints[0] = rapid.Int64Range(1<<40, 1<<62).Draw(t, "base")
+		}
 		genExtra(t, c)
 		return c
 	})
